@@ -5,6 +5,7 @@ import OFProps.C11.Dict
 import OFProps.C11.IO
 import OFModel.Config.Webvis
 import OFProps.C11.REST
+import OFModel.Config.Util
 /-!
 # C11 — property theorems
 
@@ -1057,6 +1058,134 @@ theorem C11_idempotent_REST (env : Env) (henv : IsDirStable env) (c c' : Dict) (
             rw [← hg kDeclaredFps, e3, e4]
 
 
+/-! ## Util -/
+
+theorem parseXform_not_str (s : Str) (v : Val) (h : parseXform s = .ok v) : isStrV v = false := by
+  unfold parseXform at h
+  split at h
+  · cases h
+  · simp only at h
+    repeat' split at h
+    all_goals first
+      | (injection h with h; subst h; rfl)
+      | cases h
+
+theorem xformItem_out (x y : Val) (h : xformItem x = .ok y) : xformItem y = .ok y := by
+  cases x with
+  | str s =>
+    have := parseXform_not_str s y h
+    cases y <;> simp_all [xformItem, isStrV]
+  | null => simp only [xformItem] at h; injection h with h; subst h; rfl
+  | bool _ => simp only [xformItem] at h; injection h with h; subst h; rfl
+  | int _ => simp only [xformItem] at h; injection h with h; subst h; rfl
+  | float _ => simp only [xformItem] at h; injection h with h; subst h; rfl
+  | list _ => simp only [xformItem] at h; injection h with h; subst h; rfl
+  | tuple _ => simp only [xformItem] at h; injection h with h; subst h; rfl
+  | dict _ => simp only [xformItem] at h; injection h with h; subst h; rfl
+  | blob _ => simp only [xformItem] at h; injection h with h; subst h; rfl
+
+theorem mapExcept_xform_fixed (l l' : List Val) (h : mapExcept xformItem l = .ok l') : mapExcept xformItem l' = .ok l' := by
+  apply mapExcept_fixed
+  intro y hy
+  obtain ⟨x, _, hx⟩ := mapExcept_mem _ _ _ h y hy
+  exact xformItem_out x y hx
+
+theorem normXforms_spec (c2 c' : Dict) (h : normXforms c2 = .ok c') :
+    normXforms c' = .ok c' ∧ ∀ k, k ≠ kXforms → lookup c' k = lookup c2 k := by
+  unfold normXforms at h
+  split at h
+  · rename_i hf
+    injection h with h; subst h
+    refine ⟨?_, fun _ _ => rfl⟩
+    unfold normXforms; rw [if_pos hf]
+  · split at h
+    · rename_i l hl
+      split at h
+      · cases h
+      · rename_i l' hl'
+        injection h with h; subst h
+        refine ⟨?_, fun k hk => lookup_dictSet_ne _ _ _ _ hk⟩
+        unfold normXforms
+        rw [getD_dictSet_eq]
+        split
+        · rfl
+        · simp only [splitCommasMaybe, mapExcept_xform_fixed l l' hl', dictSet_dictSet_same]
+    · rename_i l hl
+      split at h
+      · cases h
+      · rename_i l' hl'
+        injection h with h; subst h
+        refine ⟨?_, fun k hk => lookup_dictSet_ne _ _ _ _ hk⟩
+        unfold normXforms
+        rw [getD_dictSet_eq]
+        split
+        · rfl
+        · simp only [splitCommasMaybe, mapExcept_xform_fixed l l' hl', dictSet_dictSet_same]
+    all_goals cases h
+
+/-- **C11 (Util, idempotence)** -/
+theorem C11_idempotent_Util (env : Env) (c c' : Dict) (h : normalizeUtil env c = .ok c') :
+    normalizeUtil env c' = .ok c' := by
+  unfold normalizeUtil at h
+  split at h
+  · cases h
+  · rename_i c1 hF
+    split at h
+    · cases h
+    · rename_i c2 hL
+      split at h
+      · cases h
+      · rename_i hs
+        split at h
+        · cases h
+        · rename_i hm
+          obtain ⟨hx, hfr⟩ := normXforms_spec _ _ h
+          obtain ⟨hl1, hl2⟩ := normLog_nf _ _ _ hL
+          have hNF : NFFilter env c1 := C11_nf_Filter_out env _ _ hF
+          have g : ∀ k, k ≠ kXforms → k ≠ kLog → getD c' k = getD c1 k := by
+            intro k a b
+            rw [getD_of_lookup_eq (hfr k a), hl2 k b]
+          have hNF' : NFFilter env c' := by
+            apply NFFilter_congr env c1 c' hNF
+            · exact g _ (by decide) (by decide)
+            · left; exact g _ (by decide) (by decide)
+            · exact g _ (by decide) (by decide)
+            · exact g _ (by decide) (by decide)
+            · exact g _ (by decide) (by decide)
+            · exact g _ (by decide) (by decide)
+          have hlog : NFLog (getD c' kLog) := by
+            rw [getD_of_lookup_eq (hfr kLog (by decide))]; exact hl1
+          have hs' : getD c' kSleep = getD c2 kSleep := getD_of_lookup_eq (hfr _ (by decide))
+          have hm' : getD c' kMaxfps = getD c2 kMaxfps := getD_of_lookup_eq (hfr _ (by decide))
+          unfold normalizeUtil
+          simp only [C11_nf_Filter_fixed env c' hNF', normLog_fixed c' kLog hlog, hs', hm', hs, hm, hx]
+          simp
+
+/-! ## text form = structured form, per endpoint item (VideoIn, ImageIn, VideoOut, ImageOut) -/
+
+/-- **C11 (text = structure, item level)**: for every URI text / option dictionary valid for `C11_options_roundtrip`
+whose rendering contains no `;`, and every valid topic, the text item `uri!opts;topic` is converted by the first loop of
+the four endpoint-list classes to exactly the documented structure `{source|output: uri, topic: topic, options: opts}`. -/
+theorem C11_text_eq_struct_item (spec : IOSpec) (uri : Str) (opts : Dict) (topic : Str)
+    (hv : validOptions uri opts = true) (hs : validTopicText (renderOptions uri opts) = true)
+    (ht : validPlainTopic .no topic = true) :
+    parseItem spec (.str (renderTopics (renderOptions uri opts) (.names [topic]))) =
+      .ok (.dict [(spec.itemKey, .str uri), (kTopic, .str topic), (kOptions, .dict opts)]) := by
+  have hvt : validTopics (renderOptions uri opts) (some 1) .no (.names [topic]) = true := by
+    simp [validTopics, hs, ht, allDistinct, tooMany]
+  simp only [parseItem, C11_topics_roundtrip _ (some 1) .no kMain _ hvt, C11_options_roundtrip uri opts hv]
+
+/-- the same without a `;topic` part: the structure has `topic: None` (which the second loop turns into `main`) -/
+theorem C11_text_eq_struct_item_notopic (spec : IOSpec) (uri : Str) (opts : Dict)
+    (hv : validOptions uri opts = true) (hs : validTopicText (renderOptions uri opts) = true) :
+    parseItem spec (.str (renderOptions uri opts)) =
+      .ok (.dict [(spec.itemKey, .str uri), (kTopic, .null), (kOptions, .dict opts)]) := by
+  have hvt : validTopics (renderOptions uri opts) (some 1) .no .absent = true := by
+    simp [validTopics, hs]
+  have := C11_topics_roundtrip _ (some 1) .no kMain _ hvt
+  simp only [renderTopics] at this
+  simp only [parseItem, this, C11_options_roundtrip uri opts hv]
+
 /-! ## non-vacuity and negative witnesses (classes) -/
 
 def exCfg (kvs : List (String × Val)) : Dict := kvs.map (fun p => (p.1.toList, p.2))
@@ -1113,5 +1242,18 @@ example :
       (fun c => (getD c kEndpoints, normalizeREST true {} c == .ok c)) =
       some (.list [.dict (exCfg [("methods", .list [sv "GET", sv "POST"]), ("path", sv "x"), ("topic", sv "t")])], true) := by
   decide +kernel
+
+
+/-- Util: the docstring example `'flipx;main, maxsize 640+480lin;main;other'`, and the result is a fixed point -/
+example : (normalizeUtil {} (exCfg [("id", sv "u"), ("xforms", sv "flipx;main, maxsize 640+480lin;main;other"), ("log", .bool true)])).toOption.map
+      (fun c => (getD c kXforms, getD c kLog, normalizeUtil {} c == .ok c)) =
+    some (.list [.dict (exCfg [("action", sv "flipx"), ("topics", .list [sv "main"])]),
+      .dict (exCfg [("action", sv "maxsize"), ("topics", .list [sv "main", sv "other"]), ("width", .int 640), ("height", .int 480),
+        ("aspect", .bool false), ("interp", sv "L")])], sv "all", true) := by decide +kernel
+
+/-- the item-level text = structure theorem is not vacuous (URI with `!` in the password) -/
+example : validOptions "rtsp://u:p!w@h/s".toList [("sync".toList, .bool true), ("loop".toList, .int 3)] = true ∧
+    validTopicText (renderOptions "rtsp://u:p!w@h/s".toList [("sync".toList, .bool true), ("loop".toList, .int 3)]) = true ∧
+    validPlainTopic .no "cam".toList = true := by decide +kernel
 
 end OF.Config
